@@ -12,7 +12,9 @@ from ..profiles import Profile, register
 from ..universe import Universe, gen_universe
 
 PROPERTY = "C19"
-HOOKS = ["map_headers", "map_headers", "map_query", "map_case", "before_generate_query", "flatmap_headers", "before_generate_headers"]
+HOOKS = ["map_headers", "map_headers", "map_query", "map_case", "before_generate_query", "flatmap_headers", "before_generate_headers",
+         "filter_query", "filter_headers"]
+FILTER_HOOKS = ("filter_query", "filter_headers")  # leave no marker on the wire: observed through their invocations
 QUERY_HOOKS = ("map_query", "before_generate_query")
 
 
@@ -136,7 +138,7 @@ def budget(tier: str) -> dict:
 
 RULE_TEXT = (
     "one case = a seeded registration history executed through the public decorators (map_ / before_generate_ / flatmap_ hooks on "
-    "headers and query plus map_case, each adding a distinct marker; bare and named decorator form; no, one or two chained "
+    "headers and query plus map_case, each adding a distinct marker, and filter_ hooks observed through their invocations; bare and named decorator form; no, one or two chained "
     "apply_to/skip_for filters by method (any letter case), path, name - single value or list - or regex; global and schema "
     "dispatchers; interleaved unregister calls) followed by a simulated engine run; "
     "every fuzzing/stateful wire request of operation o must carry marker k iff hook k is still registered and its own filter "
@@ -185,6 +187,8 @@ class C19Profile(Profile):
         cfg = ctx.config
         W.install_links_shim()
         fns: dict[int, tuple] = {}
+        calls: set = set()
+        ctx.extra["c19_calls"] = calls
         try:
             schema = W.load_schema(ctx)
             for step in cfg["history"]:
@@ -206,6 +210,10 @@ class C19Profile(Profile):
                             query = dict(query or {})
                             query[f"hk{k}"] = "1"
                             return query
+                    elif hook_name in FILTER_HOOKS:
+                        def fn(context, value):
+                            calls.add((k, context.operation.label))
+                            return True
                     elif hook_name == "before_generate_query":
                         def fn(context, strategy):
                             return strategy.map(lambda q: {**(q or {}), f"hk{k}": "1"})
@@ -265,13 +273,16 @@ class C19Profile(Profile):
         gone = {x["k"] for x in hist if x["act"] == "unregister"}
         order = [x["k"] for x in hist if x["act"] == "register"]
         observed = 0
+        calls = ctx.extra.get("c19_calls") or set()
         for r in ctx.netlog:
             if r.phase not in ("fuzzing", "stateful") or r.op is None:
                 continue
             op = u.ops[r.op]
             observed += 1
             for k, reg in regs.items():
-                if reg["hook"] in QUERY_HOOKS:
+                if reg["hook"] in FILTER_HOOKS:
+                    has = (k, r.op) in calls
+                elif reg["hook"] in QUERY_HOOKS:
                     has = any(name == f"hk{k}" for name, _ in r.request.query)
                 else:
                     has = r.request.header(f"X-Hook-{k}") is not None
